@@ -5,6 +5,11 @@ harness, so the oracle is one text."""
 
 MAXWIN = 2 ** 31 - 1
 
+
+def implies(a, b):
+    """Native meaning of the specification form implies(a, b) (both sides are evaluated)."""
+    return (not a) or bool(b)
+
 # error codes (RFC 7540 section 7) -- written as integers on purpose: the
 # oracle must not depend on h2.errors
 NO_ERROR = 0
@@ -65,7 +70,6 @@ def STREAM_INV(c, s, k):
             and SM_INV(s.state_machine)
             and s.max_outbound_frame_size == c.max_outbound_frame_size
             and k <= watermark(c, k)
-            and s._inbound_window_manager.max_window_size <= MAXWIN
             and s._inbound_window_manager.current_window_size <= s._inbound_window_manager.max_window_size
             and s._inbound_window_manager._bytes_processed >= 0
             and s.outbound_flow_control_window <= MAXWIN
@@ -117,11 +121,20 @@ def SETTINGS_OK(s):
     """Representation invariant of a Settings object: the five RFC defaults are
     always present with valid current values; every stored queue is non-empty."""
     return (all(len(s._settings[k]) >= 1 for k in s._settings)
-            and setting_has(s, S_HEADER_TABLE_SIZE) and setting_current(s, S_HEADER_TABLE_SIZE) >= 0
+            and setting_has(s, S_HEADER_TABLE_SIZE)
             and setting_has(s, S_ENABLE_PUSH) and 0 <= setting_current(s, S_ENABLE_PUSH) and setting_current(s, S_ENABLE_PUSH) <= 1
             and setting_has(s, S_INITIAL_WINDOW_SIZE) and 0 <= setting_current(s, S_INITIAL_WINDOW_SIZE) and setting_current(s, S_INITIAL_WINDOW_SIZE) <= MAXWIN
             and setting_has(s, S_MAX_FRAME_SIZE) and 16384 <= setting_current(s, S_MAX_FRAME_SIZE) and setting_current(s, S_MAX_FRAME_SIZE) <= 16777215
-            and setting_has(s, S_ENABLE_CONNECT_PROTOCOL) and 0 <= setting_current(s, S_ENABLE_CONNECT_PROTOCOL) and setting_current(s, S_ENABLE_CONNECT_PROTOCOL) <= 1)
+            and setting_has(s, S_ENABLE_CONNECT_PROTOCOL) and 0 <= setting_current(s, S_ENABLE_CONNECT_PROTOCOL) and setting_current(s, S_ENABLE_CONNECT_PROTOCOL) <= 1
+            # values still waiting for their acknowledgement were validated when they were queued
+            and queued_in_range(s._settings[S_MAX_FRAME_SIZE], 16384, 16777215)
+            and queued_in_range(s._settings[S_INITIAL_WINDOW_SIZE], 0, MAXWIN))
+
+
+def queued_in_range(q, lo, hi):
+    """Every value behind the head of a setting's queue (a value announced but not yet acknowledged) is in
+    [lo, hi].  (Symbolically: a quantifier over queue positions, h2vc/hdrmodel.py h_queued_in_range.)"""
+    return all(v is not None and lo <= v and v <= hi for v in list(q)[1:])
 
 
 def accepted_data(result):
@@ -193,3 +206,15 @@ def hdr_in_accepts(headers, flags, normalize, validate, encoding):
     except (ProtocolError, UnicodeDecodeError):
         return False
     return True
+
+
+def settings_header_of(settings):
+    """The HTTP2-Settings header value a client derives from a settings dict (RFC 7540 section 3.2.1):
+    base64url of the SETTINGS payload.  Symbolically: b64encode(ser_settings(dict)) over the assumed
+    hyperframe / base64 contracts (h2vc/deps_model.py)."""
+    import base64
+    from hyperframe.frame import SettingsFrame
+    f = SettingsFrame(0)
+    for k, v in settings.items():
+        f.settings[k] = v
+    return base64.urlsafe_b64encode(f.serialize_body())
